@@ -9,6 +9,7 @@ def dispatch (j : Json) : Except String Json := do
   match m with
   | "pair" => handlePair op j
   | "eam" => handleEam op j
+  | "range" => handleRange op j
   | _ => throw s!"unknown model {m}"
 
 def step (line : String) : String :=
